@@ -3,81 +3,128 @@
    bounded length, for one capacity, with at most MaxBlocked calls blocked at
    a time.  Only the *inputs* are emitted; the results are whatever the real
    queue does and are judged by RpcQueueTrace.  The little count-based model
-   here exists to know how many calls are blocked.                        *)
+   here exists to know how many calls are blocked.
+
+   Bursts (MaxBurst > 1): an operation may be glued to the one before it
+   (g = TRUE): the driver then runs both back to back in ONE goroutine on one
+   P, so that the waiters woken by the first (Signal / Broadcast only marks
+   them runnable) have NOT run yet when the second executes.  This is where a
+   lost or mis-counted wake-up shows (two pops before the pusher woken by the
+   first re-acquires the lock, a push that steals the slot freed for a woken
+   pusher, ...).  The model therefore separates an operation from the
+   resolution of the waiters it wakes: Resolve steps drain them one at a time
+   and an operation that is not glued requires that nothing is left to
+   resolve (the driver waits for quiescence there).  Gluing is offered exactly
+   when it matters: waiters are pending and the previous operation returned.
+   Fills: the queue starts with that many normal items (the driver pushes them
+   first), so that interesting positions are reached within the length bound. *)
 EXTENDS Naturals, Sequences, FiniteSets, TLC, Json
 
-CONSTANTS Cap, L, MaxBlocked
+CONSTANTS Cap, L, MaxBlocked, MaxBurst, Fills
 
 VARIABLES n, p,          \* number of normal / urgent items queued
           closed,
           bpN, bpU,      \* blocked pushes (normal / urgent)
           bpop,          \* bpop[c] = blocked pops using context c
           cctx,          \* cancelled contexts
-          hist
+          hist,
+          blen,          \* operations in the burst that may still be extended (0: none)
+          fill,          \* initial number of normal items
+          tags           \* what the model believes the scenario exercises (used to stratify sampling)
 
-vars == <<n, p, closed, bpN, bpU, bpop, cctx, hist>>
+vars == <<n, p, closed, bpN, bpU, bpop, cctx, hist, blen, fill, tags>>
 Ctx == {1, 2}
 
-Init == n = 0 /\ p = 0 /\ closed = FALSE /\ bpN = 0 /\ bpU = 0
-        /\ bpop = [c \in Ctx |-> 0] /\ cctx = {} /\ hist = <<>>
+Init == /\ fill \in Fills /\ n = fill /\ p = 0 /\ closed = FALSE /\ bpN = 0 /\ bpU = 0
+        /\ bpop = [c \in Ctx |-> 0] /\ cctx = {} /\ hist = <<>> /\ blen = 0 /\ tags = {}
 
 Blocked == bpN + bpU + bpop[1] + bpop[2]
-Rec(o) == hist' = Append(hist, o)
+LivePops == (IF 1 \in cctx THEN 0 ELSE bpop[1]) + (IF 2 \in cctx THEN 0 ELSE bpop[2])
 
-\* after an item was added: a blocked pop (if any) takes one
-AfterAdd(n1, p1) ==
-    IF bpop[1] + bpop[2] > 0
-      THEN \E c \in {c \in Ctx : bpop[c] > 0} :
-             /\ bpop' = [bpop EXCEPT ![c] = @ - 1]
-             /\ IF p1 > 0 THEN p' = p1 - 1 /\ n' = n1 ELSE n' = n1 - 1 /\ p' = p1
-      ELSE n' = n1 /\ p' = p1 /\ UNCHANGED bpop
+(* --- resolution of woken waiters, one at a time, in any order --- *)
+RPop(c) ==   \* a blocked pop returns: closed, an item (urgent first), or cancelled
+    /\ bpop[c] > 0
+    /\ \/ closed /\ UNCHANGED <<n, p>>
+       \/ ~closed /\ n + p > 0 /\ IF p > 0 THEN p' = p - 1 /\ n' = n ELSE n' = n - 1 /\ p' = p
+       \/ ~closed /\ n + p = 0 /\ c \in cctx /\ UNCHANGED <<n, p>>
+    /\ bpop' = [bpop EXCEPT ![c] = @ - 1]
+    /\ UNCHANGED <<bpN, bpU>>
+RPushN == /\ bpN > 0 /\ (closed \/ n + p < Cap)
+          /\ bpN' = bpN - 1 /\ n' = (IF closed THEN n ELSE n + 1)
+          /\ UNCHANGED <<p, bpU, bpop>>
+RPushU == /\ bpU > 0 /\ (closed \/ n + p < Cap)
+          /\ bpU' = bpU - 1 /\ p' = (IF closed THEN p ELSE p + 1)
+          /\ UNCHANGED <<n, bpN, bpop>>
+Resolve == /\ (\E c \in Ctx : RPop(c)) \/ RPushN \/ RPushU
+           /\ blen' = 0
+           /\ UNCHANGED <<closed, cctx, hist, fill, tags>>
+Pending == \/ \E c \in Ctx : bpop[c] > 0 /\ (closed \/ n + p > 0 \/ c \in cctx)
+           \/ (bpN > 0 \/ bpU > 0) /\ (closed \/ n + p < Cap)     \* = ENABLED Resolve
 
-Push(u, b) ==
-    /\ Rec([op |-> "push", u |-> u, b |-> b, c |-> 0])
-    /\ IF closed THEN UNCHANGED <<n, p, closed, bpN, bpU, bpop, cctx>>
-       ELSE IF n + p < Cap
-         THEN (IF u THEN AfterAdd(n, p + 1) ELSE AfterAdd(n + 1, p)) /\ UNCHANGED <<closed, bpN, bpU, cctx>>
-       ELSE IF b
-         THEN /\ Blocked < MaxBlocked
-              /\ IF u THEN bpU' = bpU + 1 /\ UNCHANGED bpN ELSE bpN' = bpN + 1 /\ UNCHANGED bpU
-              /\ UNCHANGED <<n, p, closed, bpop, cctx>>
-       ELSE UNCHANGED <<n, p, closed, bpN, bpU, bpop, cctx>>
+(* --- operations --- *)
+\* g: glued to the previous operation (same goroutine, no quiescence in between)
+CanGlue == blen >= 1 /\ blen < MaxBurst /\ Pending
+Glue(g) == IF g THEN CanGlue ELSE ~Pending
+Rec(o, g, blocks) ==
+    /\ hist' = Append(hist, [op |-> o.op, u |-> o.u, b |-> o.b, c |-> o.c, g |-> g])
+    /\ blen' = IF blocks THEN 0 ELSE (IF g THEN blen + 1 ELSE 1)   \* an operation that blocks ends its burst
+LastOp == IF hist = <<>> THEN "" ELSE hist[Len(hist)].op
 
-Pop(c) ==
-    /\ Rec([op |-> "pop", u |-> FALSE, b |-> FALSE, c |-> c])
-    /\ IF closed THEN UNCHANGED <<n, p, closed, bpN, bpU, bpop, cctx>>
-       ELSE IF n + p > 0
-         THEN \* take one (urgent first); a blocked push (if any) then fills the space
-              LET n1 == IF p > 0 THEN n ELSE n - 1
-                  p1 == IF p > 0 THEN p - 1 ELSE p IN
-              /\ IF bpN + bpU > 0
-                   THEN \/ bpN > 0 /\ bpN' = bpN - 1 /\ n' = n1 + 1 /\ p' = p1 /\ UNCHANGED bpU
-                        \/ bpU > 0 /\ bpU' = bpU - 1 /\ p' = p1 + 1 /\ n' = n1 /\ UNCHANGED bpN
-                   ELSE n' = n1 /\ p' = p1 /\ UNCHANGED <<bpN, bpU>>
-              /\ UNCHANGED <<closed, bpop, cctx>>
-       ELSE IF c \in cctx THEN UNCHANGED <<n, p, closed, bpN, bpU, bpop, cctx>>
-       ELSE /\ Blocked < MaxBlocked /\ bpop' = [bpop EXCEPT ![c] = @ + 1]
-            /\ UNCHANGED <<n, p, closed, bpN, bpU, cctx>>
+Push(u, b, g) ==
+    /\ Glue(g)
+    /\ LET accepted == ~closed /\ n + p < Cap
+           blocks == ~closed /\ n + p = Cap /\ b IN
+       /\ blocks => Blocked < MaxBlocked
+       /\ Rec([op |-> "push", u |-> u, b |-> b, c |-> 0], g, blocks)
+       /\ IF accepted THEN IF u THEN p' = p + 1 /\ n' = n ELSE n' = n + 1 /\ p' = p
+                      ELSE UNCHANGED <<n, p>>
+       /\ IF blocks THEN IF u THEN bpU' = bpU + 1 /\ UNCHANGED bpN ELSE bpN' = bpN + 1 /\ UNCHANGED bpU
+                    ELSE UNCHANGED <<bpN, bpU>>
+       /\ tags' = IF g /\ accepted /\ LastOp = "push" /\ LivePops >= 2 THEN tags \cup {"uu"}
+                  ELSE IF g /\ accepted /\ LastOp = "pop" /\ bpN + bpU >= 1 THEN tags \cup {"stealspace"}
+                  ELSE tags
+    /\ UNCHANGED <<closed, bpop, cctx, fill>>
 
-Cancel(c) ==
+Pop(c, g) ==
+    /\ Glue(g)
+    /\ LET takes == ~closed /\ n + p > 0
+           blocks == ~closed /\ n + p = 0 /\ c \notin cctx IN
+       /\ blocks => Blocked < MaxBlocked
+       /\ Rec([op |-> "pop", u |-> FALSE, b |-> FALSE, c |-> c], g, blocks)
+       /\ IF takes THEN IF p > 0 THEN p' = p - 1 /\ n' = n ELSE n' = n - 1 /\ p' = p
+                   ELSE UNCHANGED <<n, p>>
+       /\ bpop' = IF blocks THEN [bpop EXCEPT ![c] = @ + 1] ELSE bpop
+       /\ tags' = IF g /\ takes /\ LastOp = "pop" /\ bpN + bpU >= 2 THEN tags \cup {"pp"}
+                  ELSE IF g /\ takes /\ LastOp = "push" /\ LivePops >= 1 THEN tags \cup {"stealdata"}
+                  ELSE tags
+    /\ UNCHANGED <<closed, bpN, bpU, cctx, fill>>
+
+Cancel(c, g) ==
+    /\ Glue(g)
     /\ c \notin cctx
-    /\ Rec([op |-> "cancel", u |-> FALSE, b |-> FALSE, c |-> c])
-    /\ cctx' = cctx \cup {c} /\ bpop' = [bpop EXCEPT ![c] = 0]
-    /\ UNCHANGED <<n, p, closed, bpN, bpU>>
+    /\ Rec([op |-> "cancel", u |-> FALSE, b |-> FALSE, c |-> c], g, FALSE)
+    /\ cctx' = cctx \cup {c}
+    /\ UNCHANGED <<n, p, closed, bpN, bpU, bpop, fill, tags>>
 
-Close ==
+Close(g) ==
+    /\ Glue(g)
     /\ ~closed
-    /\ Rec([op |-> "close", u |-> FALSE, b |-> FALSE, c |-> 0])
-    /\ closed' = TRUE /\ bpN' = 0 /\ bpU' = 0 /\ bpop' = [c \in Ctx |-> 0]
-    /\ UNCHANGED <<n, p, cctx>>
+    /\ Rec([op |-> "close", u |-> FALSE, b |-> FALSE, c |-> 0], g, FALSE)
+    /\ closed' = TRUE
+    /\ UNCHANGED <<n, p, bpN, bpU, bpop, cctx, fill, tags>>
 
 Next == /\ Len(hist) < L
-        /\ \/ \E u, b \in BOOLEAN : Push(u, b)
-           \/ \E c \in Ctx : Pop(c) \/ Cancel(c)
-           \/ Close
+        /\ \/ Resolve
+           \/ \E g \in BOOLEAN :
+                \/ \E u, b \in BOOLEAN : Push(u, b, g)
+                \/ \E c \in Ctx : Pop(c, g) \/ Cancel(c, g)
+                \/ Close(g)
 
 Spec == Init /\ [][Next]_vars
 
-\* emit every complete scenario once it reaches the length bound
-Emit == Len(hist) = L => PrintT(<<"SCN", ToJson([cap |-> Cap, ops |-> hist])>>)
+HasBurst == \E i \in 1..Len(hist) : hist[i].g
+\* emit every complete scenario once it reaches the length bound (with MaxBurst > 1: only those with a burst,
+\* the others are what the configuration without bursts produces)
+Emit == (Len(hist) = L /\ (MaxBurst > 1 => HasBurst)) =>
+           PrintT(<<"SCN", ToJson([cap |-> Cap, fill |-> fill, ops |-> hist, tags |-> tags])>>)
 =============================================================================
